@@ -65,7 +65,8 @@ Lemma list_append_view l o d l' :
   sl_type l' = sl_type l /\ list_view l' = list_view l ++ [(sl_type l, mkSig o (normalize (sl_type l) d))].
 Proof.
   unfold list_append. destruct (list_has l _); [discriminate|].
-  destruct (_ && _); [discriminate|]. intros E. injection E as <-. split; [reflexivity|].
+  destruct (_ && _); [discriminate|]. destruct (_ && _); [discriminate|].
+  intros E. injection E as <-. split; [reflexivity|].
   unfold list_view. cbn [sl_type sl_sigs]. rewrite map_app. reflexivity.
 Qed.
 
@@ -225,7 +226,7 @@ Lemma list_append_inv l o d l' :
 Proof.
   intros Hcase Hh0 Hh1 Hls. unfold list_append.
   destruct (list_has l _) eqn:Ehas; [discriminate|].
-  destruct (_ && _); [discriminate|]. intros E. injection E as <-.
+  destruct (_ && _); [discriminate|]. destruct (_ && _); [discriminate|]. intros E. injection E as <-.
   unfold list_inv. cbn [sl_headersize sl_header sl_sigs sl_listsize sl_size sl_type].
   assert (Hni : ~ In (mkSig o (normalize (sl_type l) d)) (sl_sigs l)).
   { intros Hc. apply list_has_in in Hc. congruence. }
@@ -356,6 +357,149 @@ Proof.
   destruct (sl_sigs l) as [|x tl] eqn:E; [contradiction|].
   inversion H4 as [|? ? Hx Htl]; subst. split; [lia|].
   rewrite Forall_forall in *. intros z Hz. specialize (H4 z Hz). lia.
+Qed.
+
+(* ---------- the list-level operations, called directly ---------- *)
+(* the invariant of a list a caller holds: as list_inv, but it may be empty *)
+Definition list_inv0 (l : siglist) : Prop :=
+  sl_headersize l = 0 /\ sl_header l = [] /\
+  sl_listsize l = 28 + sl_headersize l + N.of_nat (length (sl_sigs l)) * sl_size l /\
+  Forall (fun s => blen (sd_data s) + 16 = sl_size l) (sl_sigs l) /\
+  NoDup (sl_sigs l).
+
+Lemma list_inv_inv0 l : list_inv l -> list_inv0 l.
+Proof. intros (H0 & H1 & _ & H3 & H4 & H5). repeat split; assumption. Qed.
+Lemma list_inv0_inv l : list_inv0 l -> sl_sigs l <> [] -> list_inv l.
+Proof. intros (H0 & H1 & H3 & H4 & H5) Hn. repeat split; assumption. Qed.
+Lemma empty_list_inv0 t : list_inv0 (empty_list t).
+Proof. repeat split; cbn; try reflexivity; constructor. Qed.
+
+(* a successful list-level append adds exactly the entry, in stored form, at the end *)
+Theorem list_append_ok l o d l' :
+  list_append l o d = Ret l' ->
+  sl_type l' = sl_type l /\ sl_sigs l' = sl_sigs l ++ [mkSig o (normalize (sl_type l) d)] /\
+  ~ In (mkSig o (normalize (sl_type l) d)) (sl_sigs l).
+Proof.
+  unfold list_append. destruct (list_has l _) eqn:Ehas; [discriminate|].
+  destruct (_ && _); [discriminate|]. destruct (_ && _); [discriminate|].
+  intros E. injection E as <-. cbn [sl_type sl_sigs]. split; [reflexivity|]. split; [reflexivity|].
+  intros Hc. apply list_has_in in Hc. congruence.
+Qed.
+
+(* an entry of another size than the list's entries is refused: the size fields
+   of a non-empty list describe every entry *)
+Theorem list_append_wrong_size l o d :
+  sl_sigs l <> [] -> sl_size l <> blen (normalize (sl_type l) d) + 16 ->
+  exists e, list_append l o d = Err e.
+Proof.
+  intros Hn Hs. unfold list_append. destruct (list_has l _); [eauto|].
+  destruct (_ && _); [eauto|].
+  destruct (sl_sigs l) as [|x r] eqn:E; [contradiction|]. cbn [is_nil negb andb].
+  destruct (N.eqb_spec (sl_size l) (blen (normalize (sl_type l) d) + 16)) as [Heq|_]; [contradiction|].
+  cbn [negb]. eauto.
+Qed.
+Theorem list_append_dup l o d :
+  In (mkSig o (normalize (sl_type l) d)) (sl_sigs l) -> exists e, list_append l o d = Err e.
+Proof.
+  intros H. unfold list_append. rewrite (proj2 (list_has_in _ _) H). eauto.
+Qed.
+Theorem list_append_sha256_size l o d :
+  sl_type l = CERT_SHA256 -> blen d <> 32 -> exists e, list_append l o d = Err e.
+Proof.
+  intros Ht Hd. unfold list_append, normalize. rewrite Ht. cbn.
+  destruct (list_has l _); [eauto|].
+  destruct (N.eqb_spec (blen d) 32) as [?|_]; [contradiction|]. cbn. eauto.
+Qed.
+
+Theorem list_append_inv0 l o d l' : list_inv0 l -> list_append l o d = Ret l' -> list_inv l'.
+Proof.
+  intros Hinv H. pose proof Hinv as (H0 & H1 & H3 & H4 & H5).
+  destruct (sl_sigs l) as [|x r] eqn:Es.
+  - eapply list_append_inv; [left; exact Es|exact H0|exact H1| |exact H].
+    rewrite ?Es, H3, H0, ?Es. cbn [length]. lia.
+  - assert (Hn : sl_sigs l <> []) by (rewrite Es; discriminate).
+    assert (Hsz : sl_size l = blen (normalize (sl_type l) d) + 16).
+    { destruct (N.eq_dec (sl_size l) (blen (normalize (sl_type l) d) + 16)) as [e|ne]; [exact e|].
+      destruct (list_append_wrong_size l o d Hn ne) as [e He]. rewrite He in H. discriminate. }
+    eapply list_append_inv; [right; split; [apply list_inv0_inv; [exact Hinv|rewrite ?Es; first [exact Hn|discriminate]]|exact Hsz]|exact H0|exact H1| |exact H].
+    rewrite ?Es, H3, H0, ?Es. lia.
+Qed.
+
+(* a successful list-level remove deletes one matching entry *)
+Theorem list_remove_ok l o d l' :
+  list_remove l o d = Ret l' ->
+  sl_type l' = sl_type l /\
+  exists pre post, sl_sigs l = pre ++ [mkSig o d] ++ post /\ sl_sigs l' = pre ++ post.
+Proof.
+  unfold list_remove. destruct (list_has l _) eqn:Ehas; [|discriminate].
+  apply list_has_in in Ehas. destruct (remove_first_split _ _ Ehas) as (a & b & Ea & Eb).
+  destruct (sl_sigs l) as [|x [|y r]] eqn:Es.
+  - destruct Ehas.
+  - intros E. injection E as <-. cbn [empty_list sl_type sl_sigs]. split; [reflexivity|].
+    exists a, b. split; [exact Ea|].
+    destruct a as [|a0 a']; [destruct b; [reflexivity|discriminate]|].
+    destruct a'; discriminate.
+  - intros E. injection E as <-. cbn [sl_type sl_sigs]. split; [reflexivity|].
+    exists a, b. split; assumption.
+Qed.
+
+Theorem list_remove_absent l o d :
+  (exists e, list_remove l o d = Err e) <-> ~ In (mkSig o d) (sl_sigs l).
+Proof.
+  unfold list_remove. split.
+  - intros [e H] Hin. rewrite (proj2 (list_has_in _ _) Hin) in H.
+    destruct (sl_sigs l) as [|? [|? ?]]; discriminate.
+  - intros Hn. destruct (list_has l _) eqn:E; [apply list_has_in in E; contradiction|eauto].
+Qed.
+
+Lemma remove_first_size sigs s sz :
+  In s sigs -> N.of_nat (length sigs) * sz = N.of_nat (length (remove_first sigs s)) * sz + sz.
+Proof. intros H. rewrite <- (remove_first_length _ _ H), Nat2N.inj_succ, N.mul_succ_l. lia. Qed.
+
+Theorem list_remove_inv0 l o d l' : list_inv0 l -> list_remove l o d = Ret l' -> list_inv0 l'.
+Proof.
+  intros (H0 & H1 & H3 & H4 & H5). unfold list_remove.
+  destruct (list_has l _) eqn:Ehas; [|discriminate]. apply list_has_in in Ehas.
+  destruct (sl_sigs l) as [|x [|y r]] eqn:Es.
+  - destruct Ehas.
+  - intros E. injection E as <-. apply empty_list_inv0.
+  - intros E. injection E as <-. unfold list_inv0. cbn [sl_headersize sl_header sl_listsize sl_size sl_sigs].
+    pose proof (remove_first_length _ _ Ehas) as Hlen.
+    split; [exact H0|]. split; [exact H1|]. split; [|split].
+    + rewrite H3. pose proof (remove_first_size _ _ (sl_size l) Ehas) as Hsz.
+      cbn [remove_first] in Hsz |- *. rewrite Hsz. lia.
+    + rewrite Forall_forall in *. intros z Hz. apply H4. eapply remove_first_in. exact Hz.
+    + exact (remove_first_nodup _ (mkSig o d) H5).
+Qed.
+
+(* the index Exists reports is that of the first matching entry *)
+Theorem index_of_spec sigs s :
+  match index_of sigs s with
+  | Some i => exists pre post, sigs = pre ++ [s] ++ post /\ N.of_nat (length pre) = i /\ ~ In s pre
+  | None => ~ In s sigs
+  end.
+Proof.
+  induction sigs as [|x r IH]; cbn [index_of]; [intros []|].
+  destruct (sig_eqb s x) eqn:E.
+  - apply sig_eqb_eq in E. subst. exists [], r. repeat split. intros [].
+  - assert (Hne : s <> x) by (intros ->; rewrite (proj2 (sig_eqb_eq x x) eq_refl) in E; discriminate).
+    destruct (index_of r s) as [i|].
+    + destruct IH as (pre & post & -> & Hl & Hn). exists (x :: pre), post. split; [reflexivity|]. split.
+      * cbn [length]. lia.
+      * intros [Hc|Hc]; [apply Hne; symmetry; exact Hc|exact (Hn Hc)].
+    + intros [Hc|Hc]; [apply Hne; symmetry; exact Hc|exact (IH Hc)].
+Qed.
+
+(* every list reachable by direct appends and removes keeps the invariant *)
+Theorem list_history_inv ops : forall l,
+  list_inv0 l -> list_inv0 (fold_left (fun x op => fst (list_step pem_decode x op)) ops l).
+Proof.
+  induction ops as [|op ops IH]; intros l Hinv; [exact Hinv|].
+  cbn [fold_left]. apply IH. destruct op as [o d|o d]; cbn [list_step].
+  - destruct (list_append l o d) eqn:E; cbn [fst]; try exact Hinv.
+    apply list_inv_inv0. eapply list_append_inv0; eauto.
+  - destruct (list_remove l o d) eqn:E; cbn [fst]; try exact Hinv.
+    eapply list_remove_inv0; eauto.
 Qed.
 End Db.
 
